@@ -5,7 +5,7 @@ from .. import cases, oracles
 from . import _align_common as ac
 
 TITLE = "Built-in dissimilarities compute their documented formula in both forms"
-DECIDING = ["M-FORMULA", "M-COMPILED", "M-KERNEL-VIA-CONTINUUM", "M-SYMMETRY", "M-LABEL-ORDER", "M-OLDER-INSTANCE", "M-PRE-USE", "M-SHARED-COMPONENT"]
+DECIDING = ["M-FORMULA", "M-COMPILED", "M-KERNEL-VIA-CONTINUUM", "M-SYMMETRY", "M-LABEL-ORDER", "M-OLDER-INSTANCE", "M-PRE-USE", "M-SHARED-COMPONENT", "M-KERNEL-CONCURRENT"]
 LEVEL = "exploration"
 RULE = ("a case = one dissimilarity instance (every built-in class; delta_empty, alpha, beta from the documented value "
         "sets; labels supplied sorted or shuffled; 1-300 categories; precomputed matrices as float32, float64, integer or boolean "
@@ -16,7 +16,7 @@ RULE = ("a case = one dissimilarity instance (every built-in class; delta_empty,
         "identical units; per instance: the same two names in a twin instance built with shuffled labels / extra "
         "categories; histories: a categorical component that was used (d() called) before being handed to the combined "
         "constructor, and the previous case's instance measured again after the current one was built (several instances "
-        "alive at once), one component object shared by two combined dissimilarities with different delta_empty. non-trivial = pair of different units; distinct by SHA-1 of (instance, pairs)")
+        "alive at once), one component object shared by two combined dissimilarities with different delta_empty, one label-free instance computing candidate tables for continua with different category sets in 4 user threads at once. non-trivial = pair of different units; distinct by SHA-1 of (instance, pairs)")
 ASSUMPTIONS = [
     "tolerance |a-b| <= 1e-5*max(|a|,|b|) + 1e-6*delta_empty (compiled form is float32)",
     "generated times are float32-representable, so both forms see the same numbers",
@@ -175,6 +175,8 @@ def check_shared_component(ctx, case):
 
 def check_case(ctx, case):
     ac.setup(ctx)
+    if case.get("concurrent") == "candidates":
+        return ac.check_concurrent_candidates_case(ctx, case, "M-KERNEL-CONCURRENT")
     if case.get("dissim_b"):
         return check_shared_component(ctx, case)
     dspec = case["dissim"]
@@ -366,6 +368,9 @@ def gen_instance(rng, big=False):
             comp.pop("matrix_dtype", None)       # these entries are fractions: a float32 matrix
         if comp["kind"] == "ordinal":
             comp["p"] = None if rng.random() < 0.5 else [float(rng.randrange(-50, 500)) for _ in labels]
+            comp.pop("p_dtype", None)      # chosen for the positions this replaces
+            if comp["p"] is not None and rng.random() < 0.3:
+                comp["p_dtype"] = rng.choice(["int64", "int32", "pyint"])
     return d
 
 
@@ -461,6 +466,13 @@ def run(ctx):
         case = {"dissim": a_spec, "dissim_b": b_spec, "pairs": gen_pairs(rng, labels, 12)}
         ctx.begin_case(case)
         ctx.observe("class", "shared-component/" + (kind or "positional-only"))
+        check_case(ctx, case)
+    # (4) one label-free dissimilarity object computing candidate tables for continua with different category sets, from
+    # several user threads at once (what compute_gamma's own pool does with the chance samples)
+    for _ in range(ctx.scale(5, 60)):
+        case = ac.gen_concurrent_candidates_case(rng)
+        ctx.begin_case(case)
+        ctx.observe("class", "concurrent-threads/" + case["dissim"]["kind"])
         check_case(ctx, case)
     n_inst = ctx.scale(40, 800)
     for i in range(n_inst):
